@@ -1033,11 +1033,36 @@ def handle_ifs(args, op_range=None):
 
 
 def build_wildcard_re(lookup_value):
-    regex = QUESTION_MARK_RE.sub('.', STAR_RE.sub('.*', lookup_value))
-    if regex != lookup_value:
-        # this will be a regex match"""
-        compiled = re.compile(f'^{regex.lower()}$')
-        return lambda x: x is not None and compiled.match(x.lower()) is not None
+    """Build a matcher for excel wildcards: ? one char, * any chars, ~ escapes
+
+    :return: None if the value contains neither wildcards nor escapes
+    """
+    regex = []
+    is_pattern = False
+    chars = iter(lookup_value)
+    for char in chars:
+        if char == '~':
+            escaped = next(chars, None)
+            if escaped in ('*', '?', '~'):
+                is_pattern = True
+                regex.append(re.escape(escaped))
+            else:
+                regex.append(re.escape(char))
+                if escaped is not None:
+                    regex.append(re.escape(escaped))
+        elif char == '*':
+            is_pattern = True
+            regex.append('.*')
+        elif char == '?':
+            is_pattern = True
+            regex.append('.')
+        else:
+            regex.append(re.escape(char))
+
+    if is_pattern:
+        compiled = re.compile(f'^{"".join(regex)}$', re.IGNORECASE | re.DOTALL)
+        # only text can match a pattern
+        return lambda x: isinstance(x, str) and compiled.match(x) is not None
     else:
         return None
 
